@@ -7,6 +7,7 @@ pub mod c04;
 pub mod c05;
 pub mod c06;
 pub mod c07;
+pub mod c11;
 pub mod c12;
 pub mod stream;
 pub mod c13;
@@ -30,6 +31,9 @@ pub fn registry() -> Vec<PropDef> {
         PropDef { meta: &c05::META, run: c05::run_all, replay: c05::replay, health: c05::health },
         PropDef { meta: &c06::META, run: c06::run, replay: c06::replay, health: c06::health },
         PropDef { meta: &c07::META, run: c07::run, replay: c07::replay, health: c07::health },
+        PropDef { meta: &stream::META_C08, run: stream::run_c08, replay: stream::replay_c08, health: stream::health_c08 },
+        PropDef { meta: &stream::META_C09, run: stream::run_c09, replay: stream::replay_c09, health: stream::health_c09 },
+        PropDef { meta: &c11::META, run: c11::run, replay: c11::replay, health: c11::health },
         PropDef { meta: &c12::META_C12, run: c12::run_c12, replay: c12::replay_c12, health: c12::health_c12 },
         PropDef { meta: &c12::META_C20, run: c12::run_c20, replay: c12::replay_c20, health: c12::health_c20 },
         PropDef { meta: &c13::META, run: c13::run, replay: c13::replay, health: c13::health },
